@@ -127,7 +127,10 @@ class _BaseProtocol(asyncio.Protocol):
         """
 
         try:
-            return await asyncio.wait_for(self._wait_connection_made, timeout)
+            # shield: a time-out must not cancel the future that connection_made() resolves
+            return await asyncio.wait_for(
+                asyncio.shield(self._wait_connection_made), timeout
+            )
         except TimeoutError as err:
             raise exc.TransportError(
                 f"Transport did not bind to Protocol within {timeout} secs"
